@@ -12,6 +12,18 @@ from fractions import Fraction
 BATCH = 2048          # cross-checked against Consts by the check (ctx.consts)
 _K = None
 
+# Kernel primitives (machine floats / 63-bit integers) that Print Assumptions lists for anything
+# that computes with PrimFloat: they are not axioms of the development (DESIGN.md section 4).
+PRIMITIVES = frozenset(
+    ["float", "PrimInt63.int"] +
+    ["PrimFloat." + n for n in ("add", "sub", "mul", "div", "sqrt", "opp", "abs", "eqb", "ltb", "leb", "compare",
+                                "classify", "of_uint63", "normfr_mantissa", "frshiftexp", "ldshiftexp",
+                                "next_up", "next_down", "float", "Leibniz.eqb")] +
+    ["PrimInt63." + n for n in ("add", "sub", "mul", "mulc", "div", "mod", "divs", "mods", "lsl", "lsr", "asr", "land",
+                                "lor", "lxor", "eqb", "ltb", "leb", "ltsb", "lesb", "compare", "compares", "addc",
+                                "addcarryc", "subc", "subcarryc", "diveucl", "diveucl_21", "addmuldiv", "head0",
+                                "tail0", "int")])
+
 
 # ---------------------------------------------------------------------------- jitted helpers
 class _Kernels:
@@ -124,19 +136,6 @@ class Config:
     def coq_args(self, width, depth, bucket="bk"):
         """argument string for run_ops / model functions after `width depth bucket`"""
         return f"{self.nr} {self.umax} {self.max_count} pn dc {KINDS[self.kind]['wrap']}"
-
-    def coq_tables(self, full=True, counters=None):
-        """Definitions pn, dc : Z -> float.  full: complete tables as lists; else sparse
-        association lists for the given counters (and their neighbours)."""
-        if full:
-            return (f"Definition pn_l : list float := {flist(self.powneg)}.\n"
-                    f"Definition dc_l : list float := {flist(self.decode)}.\n"
-                    "Definition pn : Z -> float := tab_of pn_l.\nDefinition dc : Z -> float := tab_of dc_l.\n")
-        cs = sorted(set(counters))
-        pn = [(c - self.nr, self.powneg[c - self.nr]) for c in cs if c >= self.nr]
-        dc = [(c, self.decode[c]) for c in cs if c < len(self.decode)]
-        return ("Definition pn : Z -> float := assoc_f [" + "; ".join(f"({i}, {fhex(x)})" for i, x in pn) + "].\n"
-                "Definition dc : Z -> float := assoc_f [" + "; ".join(f"({i}, {fhex(x)})" for i, x in dc) + "].\n")
 
 
 # ---------------------------------------------------------------------------- rand control
@@ -288,23 +287,29 @@ class Op:
         return d
 
 
-def run_ops(sk, ops):
-    """Apply ops to the real object.  Returns the snapshot after every op.  A refill of rand_nums
+class Runner:
+    """Applies ops to the real object and records the snapshot after every op.  A refill of rand_nums
     during an op is detected (the batch changed) and the new batch is recorded on the most recent
-    set_rand op as a future batch (first rand_ptr values, more are appended if later ops read on)."""
-    np = kernels().np
-    snaps = []
-    last_set = None
-    for op in ops:
+    set_rand op as a future batch (its first rand_ptr values; extended if later ops read further).
+    Every op must consume fewer than 2048 draws (the generators guarantee it), so at most one refill
+    happens per op."""
+
+    def __init__(self, sk):
+        self.sk = sk
+        self.snaps = []
+        self.last_set = None
+
+    def step(self, op):
+        np = kernels().np
+        sk = self.sk
         if op.kind == "merge":
             op.other_snap = snapshot(op.other)
         before = sk.rand_nums.copy()
-        ptr0 = int(sk.rand_ptr)
         op.apply(sk)
+        last_set = self.last_set
         if op.kind == "set_rand":
-            last_set = op
+            self.last_set = op
             op.fut = []
-            op._refilled = False
         elif not np.array_equal(before, sk.rand_nums):
             if last_set is None:
                 raise AssertionError("refill before any set_rand: draws not under control")
@@ -312,11 +317,80 @@ def run_ops(sk, ops):
                 # a second refill in the same stretch: the previous batch was consumed completely
                 last_set.fut[-1] = [float(x) for x in before]
             last_set.fut.append([float(x) for x in sk.rand_nums[:int(sk.rand_ptr)]])
-            last_set._refilled = True
         elif last_set is not None and last_set.fut and int(sk.rand_ptr) > len(last_set.fut[-1]):
             last_set.fut[-1] = [float(x) for x in sk.rand_nums[:int(sk.rand_ptr)]]
-        snaps.append(snapshot(sk))
-    return snaps
+        snap = snapshot(sk)
+        self.snaps.append(snap)
+        return snap
+
+
+def run_ops(sk, ops):
+    """Apply ops to the real object; returns the snapshot after every op (see Runner)."""
+    r = Runner(sk)
+    for op in ops:
+        r.step(op)
+    return r.snaps
+
+
+def hist_case(width, depth, bmap, ops, snaps):
+    """Coq term for CmsLog.hist_case_ok: (width, depth, bucket map, ops, snapshots)"""
+    return (f"({width}, {depth}, [" + "; ".join(f"({coq_key(k)}, {zlist(c)})" for k, c in bmap.items()) + "], ["
+            + "; ".join(o.coq() for o in ops) + "], [" + "; ".join(coq_snap(x) for x in snaps) + "])")
+
+
+# ---------------------------------------------------------------------------- tables for Coq
+def _chunks(name, xs, n=2048):
+    out = []
+    names = []
+    for i in range(0, len(xs), n):
+        nm = f"{name}_{i // n}"
+        names.append(nm)
+        out.append(f"Definition {nm} : list float := {flist(xs[i:i + n])}.\n")
+    return "".join(out), "[" + "; ".join(names) + "]"
+
+
+def coq_table_defs(cfg):
+    """Definitions pnt, dct : ftree (tries, evaluated once) from the implementation's tables"""
+    a, an = _chunks("pn_l", cfg.powneg)
+    b, bn = _chunks("dc_l", cfg.decode)
+    return (a + b + f"Definition pnt : ftree := Eval vm_compute in ft_of_chunks {an}.\n"
+            f"Definition dct : ftree := Eval vm_compute in ft_of_chunks {bn}.\n")
+
+
+def coq_table_prelude(cfg, module=None):
+    """Prelude text defining pn, dc : Z -> float.  module: name of a compiled table module
+    (compile_tables) or None to inline the tables (log8)."""
+    if module is None:
+        return coq_table_defs(cfg) + "Definition pn := tabt_of pnt.\nDefinition dc := tabt_of dct.\n"
+    return f"Require Import {module}.\nDefinition pn := tabt_of pnt.\nDefinition dc := tabt_of dct.\n"
+
+
+def compile_tables(ctx, cfgs):
+    """Compile one table module per configuration into ctx.dir (7 s for a log16 configuration, paid
+    once instead of once per case shard).  Returns {cfg.key(): module name}."""
+    import os
+    import lib
+    from concurrent.futures import ThreadPoolExecutor
+    mods = {}
+    todo = []
+    for cfg in cfgs:
+        name = f"Tab_{cfg.kind}_{cfg.max_count}_{cfg.nr}"
+        mods[cfg.key()] = name
+        path = os.path.join(ctx.dir, name + ".v")
+        if not os.path.exists(path):
+            with open(path, "w") as f:
+                f.write("From Coq Require Import ZArith List Floats.PrimFloat.\n"
+                        "From Sketchnu Require Import Machine CmsLog.\nImport ListNotations.\n")
+                f.write(coq_table_defs(cfg))
+            todo.append(name)
+
+    def one(name):
+        return name, lib.run(["coqc"] + lib.COQFLAGS + [name + ".v"], 900, cwd=ctx.dir)
+    with ThreadPoolExecutor(max_workers=lib.PAR) as ex:
+        for name, (rc, out, err) in ex.map(one, todo):
+            if rc != 0:
+                ctx.broken.append(f"table module {name} does not compile: {err.strip()[:300]}")
+    return mods
 
 
 # ---------------------------------------------------------------------------- exact arithmetic on tables
@@ -351,7 +425,10 @@ def check_tables_exact(cfg, tol_bits=45, counters=None):
     failure descriptions (empty = all hold):
       powneg 0 = 1; powneg strictly decreasing and positive; decode c = c for c <= nr+1;
       decode strictly increasing; |powneg(c+1)*base - powneg(c)| <= 2^-tol * powneg(c);
-      |decode(c+1) - (base*(decode(c)-nr) + 1 + nr)| <= 2^-tol * decode(c+1)   for c >= nr."""
+      |decode(c+1) - (base*(decode(c)-nr) + 1 + nr)| <= 2^-tol * (2*decode(c+1) - nr + 1/(base-1)) for c >= nr
+      (error model of _counter2value: rounding at the magnitude of the value plus the cancellation
+      in base**c' - 1 amplified by 1/(base-1); measured worst 2^-52 over the grid; a plain relative
+      bound fails at 2^-39 for bases within 1e-5 of 1)."""
     bad = []
     F = Fraction
     b = F(cfg.base)
@@ -377,7 +454,7 @@ def check_tables_exact(cfg, tol_bits=45, counters=None):
             bad.append(f"decode not increasing at c={c}")
         if c >= nr:
             rhs = b * (F(dc[c]) - nr) + 1 + nr
-            if abs(F(dc[c + 1]) - rhs) > eps * F(dc[c + 1]):
+            if abs(F(dc[c + 1]) - rhs) * (b - 1) > eps * ((2 * F(dc[c + 1]) - nr) * (b - 1) + 1):
                 bad.append(f"decode recurrence off at c={c}")
         if len(bad) > 5:
             return bad
@@ -465,7 +542,7 @@ def gen_history(rng, cfg, keys, width, depth, nops, others=(), allow_set_table=F
         elif r < 0.50 and big and cfg.kind == "log8":
             # saturating add: at most umax draws, all zero padding after the explicit stretch
             ops.append(Op("set_rand", vals=[], pre=0, ptr=0))
-            ops.append(Op("add", key=k, v=rng.choice([2 ** 40, 2 ** 32 + 1, 10 ** 4, 2 ** 64 - 1])))
+            ops.append(Op("add", key=k, v=rng.choice([2 ** 40, 2 ** 32 + 1, 10 ** 4, 2 ** 50])))
             ops.append(new_rand())
         elif r < 0.60:
             kk = rng.choice(keys + [b"abcabcab", b"aaaaaa", b"\x00\x00\x00\x00"])
